@@ -206,4 +206,17 @@ extern struct WOPNInstrument verif_env_ins_win[1];
     __CPROVER_decreases((unsigned long)hertz)
 #endif
 
+/* ---------------------------------------------------------------- realTime_NoteOn: chip-channel selection loop ---- */
+/* argmax over the channels scanned so far; the ghost witness g_sel_w is an arbitrary channel: once it has been scanned
+ * (and is not the skipped primary channel) the best score is at least the lower bound of its class.  SEL_* come from
+ * contracts/alloc_contracts.h. */
+#ifndef VERIF_LOOP_midiplay_noteon_select
+#define VERIF_LOOP_midiplay_noteon_select \
+    __CPROVER_assigns(a, c, bs) \
+    __CPROVER_loop_invariant(a <= (size_t)(*synth__p).m_numChannels && c >= -1 && (c < 0 || (size_t)c < a) && \
+                             (c == -1 ? bs == -0x7FFFFFFFl : (bs <= SEL_UPPER(c) && bs >= SCORE_MIN && !SEL_SKIP(c))) && \
+                             ((g_sel_w < a && !SEL_SKIP(g_sel_w)) ==> (c >= 0 && bs >= SEL_LOWER(g_sel_w)))) \
+    __CPROVER_decreases((size_t)(*synth__p).m_numChannels - a)
+#endif
+
 #endif
